@@ -1,19 +1,17 @@
------------------------------ MODULE Trace_Schema -----------------------------
+------------------------------ MODULE Trace_Gen ------------------------------
 (***************************************************************************)
-(* Trace validation for the descriptor family (C34-C38): every event       *)
-(* recorded from the real code (linked files, seeded random schemas,       *)
-(* mutated schemas, fuzzed protos, proto2/proto3-vs-editions pairs) must   *)
-(* satisfy SchemaCases!Agree.  One TLC step per event; rejected line       *)
-(* numbers are collected so that the rest of the trace is still checked.   *)
+(* Trace validation for C40: every recorded history of generator runs      *)
+(* (one event = one plan with its observations) must be accepted by the    *)
+(* history specification GenHistory.                                        *)
 (***************************************************************************)
-EXTENDS SchemaCases, Json, IOUtils
+EXTENDS GenHistory, Json, IOUtils
 
 Trace == ndJsonDeserialize(IOEnv.TRACE)
 
 VARIABLES l, bad
 Init == l = 1 /\ bad = <<>>
 Next == /\ l <= Len(Trace)
-        /\ bad' = IF Agree(Trace[l]) THEN bad ELSE Append(bad, l)
+        /\ bad' = IF Allowed(Trace[l]) THEN bad ELSE Append(bad, l)
         /\ l' = l + 1
         /\ TLCSet(1, <<l + 1, bad'>>)
 Accepted == LET r == TLCGet(1) IN
